@@ -56,7 +56,11 @@ func NewSolver(kind string, timeoutMs int) (*Solver, error) {
 	switch kind {
 	case "cvc5":
 		args := []string{"--incremental", "--produce-models", "--strings-exp",
-			"--lang=smt2", fmt.Sprintf("--tlimit-per=%d", timeoutMs)}
+			"--lang=smt2", fmt.Sprintf("--tlimit-per=%d", timeoutMs),
+			// SOUNDNESS (agentD): cvc5 1.0.3's regexp-inclusion inference is wrong; it answers unsat for
+			//   (str.in_re s (re.* (re.range " " "~")))  and  (not (str.in_re s (re.* (re.union (re.range "0" "9") (re.range "a" "z")))))
+			// i.e. for every zz.String input combined with a negated star membership. z3 and cvc5 without the inference say sat.
+			"--no-strings-regexp-inclusion"}
 		// measured on the C11 structured-URL queries: 10x faster sat answers with many bounded
 		// regular-membership constraints (agentC); SYMGO_CVC5_OPTS="-" disables, other values replace.
 		switch extra := os.Getenv("SYMGO_CVC5_OPTS"); extra {
